@@ -11,10 +11,10 @@ hooks = [l.split()[0] for l in log if l.split(" ", 1)[1].startswith("verif hooks
 
 E = {
  "E1": ("harness/e1.py", "scheduler: TLC model checking of spec/Scheduler.tla against spec/SchedObs.tla, schedule-exhaustive controlled executions of the real scheduler through the hooks, each validated by TLC against spec/SchedTrace.tla"),
- "E4": ("harness/e4.py", "life-cycle: histories of operations (calls, failing calls, setup, executors, re-runs, deep copies, compose, config reload, caching runs, restarts) on real DAG instances; every step validated by TLC against spec/Lifecycle.tla through spec/LifecycleTrace.tla"),
+ "E4": ("harness/e4.py", "life-cycle: histories of operations (calls, failing calls, setup, executors, re-runs, deep copies, compose, config reload, caching runs, restarts) on real DAG instances; every step validated by TLC against spec/Lifecycle.tla through spec/LifecycleTrace.tla; the implementation-shaped machine spec/LifecycleMC.tla is model-checked over all histories up to a length bound, and behaviours TLC generates from it (spec/LifecycleHist.tla, simulation mode) are replayed on the real library and the executed sets compared"),
  "E2": ("harness/e2.py", "recorder and dataflow: generated describing functions (all argument forms, indexing, unpack_to, operators, and_/or_/not_, return shapes, nested DAGs, activation flags) run on the real library under random configurations; TLC evaluates the reference semantics spec/Dataflow.tla on every observation (spec/DfCheck.tla) and explores all schedules of the abstract results map (spec/DataflowMC.tla)"),
- "E2C": ("harness/e2c.py", "compose: spec/Compose.tla evaluated by TLC (spec/CompCheck.tla) on compositions of generated flat programs run on the real library"),
- "E5": ("harness/e5.py", "concurrency of the library itself: spec/BuildLock.tla model-checked (both readings of 'am I describing?'), build scenarios with real threads validated as traces (spec/BuildLockTrace.tla), simultaneous calls from several threads and gathered awaits of one AsyncDAG compared with spec/Dataflow.tla, loop-liveness probe"),
+ "E2C": ("harness/e2c.py", "compose: spec/Compose.tla evaluated by TLC (spec/CompCheck.tla) on compositions of generated flat programs run on the real library; every composed DAG is also called inside an outer DAG (C20) and the original is called again afterwards (C15)"),
+ "E5": ("harness/e5.py", "concurrency of the library itself: spec/BuildLock.tla model-checked (both readings of 'am I describing?'), build scenarios with real threads validated as traces (spec/BuildLockTrace.tla), simultaneous calls from several threads and gathered awaits of one AsyncDAG compared with spec/Dataflow.tla, loop-liveness probe (also on the error paths: failed and cancelled awaits); spec/BuildLockProof.tla: inductive invariant of the build lock proved with TLAPS for any number of threads and call sites"),
  "E3": ("harness/e3.py", "graph algebra: spec/Selection.tla and spec/CompoundPriority.tla evaluated by TLC (spec/SelCheck.tla, spec/CpCheck.tla) on every observation of executor / setup / call selections, debug settings, priority tables and mc=1 orders made on the real library"),
 }
 CHECKS = {
@@ -31,7 +31,7 @@ CHECKS = {
     for p in ["C07", "C12", "C13"]},
  **{p: ("E4",
         "spec/Lifecycle.tla defines the abstract state a DAG instance, an executor and a cache file carry between operations and what every operation must observe; the harness runs thousands of operation histories on the real library (three template DAGs, sync and async) and TLC validates every step of every history (spec/LifecycleTrace.tla), naming the violated clause",
-        "trusted: TLC, the node_enter / exec_begin hooks, the harness's comparison of returned values with a freshly built DAG; bounds: three template DAGs, all histories of length <= 2 over a 27-operation alphabet (sampled in the quick tier) plus random histories up to length ~9",
+        "trusted: TLC, the node_enter / exec_begin hooks, the harness's comparison of returned values with a freshly built DAG; C15 also runs engine E2C (the original DAG is called again after every composition); bounds: four template DAGs, all histories of length <= 2 over a 27-operation alphabet (sampled in the quick tier) plus random histories up to length ~9",
         "TLC trace validation of operation histories against an explicit TLA+ state machine of the library's life-cycle")
     for p in ["C11", "C15", "C18"]},
  **{p: ("E2",
